@@ -265,6 +265,7 @@ class Interp:
         comp = {c.name: c.copy(st.comp[c.name]) for c in self.components}
         comp["__symstore"] = dict(st.comp.get("__symstore", {}))
         comp["__shallow"] = dict(st.comp.get("__shallow", {}))
+        comp["__lazyval"] = dict(st.comp.get("__lazyval", {}))
         return St(dict(st.env), comp)
 
     def join_states(self, a: Optional[St], b: Optional[St]) -> Optional[St]:
@@ -296,6 +297,13 @@ class Interp:
             else:
                 sh[k] = ha.get(k) or hb.get(k)
         comp["__shallow"] = sh
+        # lazily filled attributes: on the path that did not fill, the attribute already held what an earlier execution of the
+        # same fill stored - the abstract value of the fill stands for both
+        la, lb = a.comp.get("__lazyval", {}), b.comp.get("__lazyval", {})
+        lz = {}
+        for k in set(la) | set(lb):
+            lz[k] = join_vals(la[k], lb[k]) if (k in la and k in lb) else (la.get(k) or lb.get(k))
+        comp["__lazyval"] = lz
         return St(env, comp)
 
     # ------------------------------------------------------------------ entry
@@ -540,6 +548,7 @@ class Interp:
             else:
                 self.emit(st, "write", node, loc=loc, objcls=None, mode="inplace", op=op, sub=sub, rhs=rhs,
                           cur=cur_val, result=None)
+                st.comp.get("__lazyval", {}).pop(loc, None)
 
     def s_Return(self, s, st):
         v = self.ev(s.value, st) if s.value is not None else vconst(None)
@@ -913,8 +922,14 @@ class Interp:
             sh[obj.oid] = (sh[obj.oid][0], sh[obj.oid][1] | {attr})
         if ATTR.get(attr, (None, None))[1] in ("float", "int"):
             self._symstore(st)[(obj.oid, attr)] = v.sym
-        self.emit(st, "write", node, loc=(obj.oid, attr), objcls=obj.cls, mode="rebind", op="set", sub=None,
-                  rhs=v, cur=None, result=v)
+        ev_ = self.emit(st, "write", node, loc=(obj.oid, attr), objcls=obj.cls, mode="rebind", op="set", sub=None,
+                        rhs=v, cur=None, result=v)
+        lz = st.comp.setdefault("__lazyval", {})
+        from .components import _lazy_fill
+        if not (v.has_const() and v.const is None) and _lazy_fill(self, ev_, attr):
+            lz[(obj.oid, attr)] = v
+        else:
+            lz.pop((obj.oid, attr), None)
 
     def write_prop(self, base: Val, prop: PropInfo, attr, v: Val, st, node):
         if prop.setter is None:
@@ -1080,7 +1095,10 @@ class Interp:
         if isinstance(m, FuncInfo):
             return Val(kind="bound", fn=m, base=base, dim=D0)
         if isinstance(m, tuple) and m[0] == "classattr":
-            return self.getattr_val(Val(kind="class", extra=obj.cls, dim=D0), attr, st, node)
+            from .entries import stored_attrs
+            if attr not in stored_attrs(obj.cls):
+                return self.getattr_val(Val(kind="class", extra=obj.cls, dim=D0), attr, st, node)
+            # a class-level default (`_x = None`) shadowed by an instance attribute stored somewhere in the hierarchy
         return self.read_field(base, attr, st, node)
 
     def read_prop(self, base: Val, prop: PropInfo, st, node) -> Val:
@@ -1129,6 +1147,9 @@ class Interp:
         obj = base.obj
         loc = (obj.oid, attr)
         self.emit(st, "read", node, loc=loc, objcls=obj.cls, cached=False)
+        lzv = st.comp.get("__lazyval", {}).get(loc)
+        if lzv is not None:
+            return lzv.copy(al=lzv.al | ({loc} if lzv.kind not in ("float", "int", "bool") else set()), deps=lzv.deps | {loc})
         dim, kind = ATTR.get(attr, (TOP, "unknown"))
         comp = self.composite_of(obj.cls, attr)
         if comp is not None:
